@@ -400,6 +400,32 @@ func (x *XRefParser) parseXRefStream() (*XRefTable, error) {
 		w[i] = int(intVal)
 	}
 
+	// The widths, the subsection list and the entry counts all come from the
+	// file; check them before they are used as slice bounds and loop limits.
+	entryWidth := 0
+	for i, width := range w {
+		if width < 0 || width > 8 {
+			return nil, fmt.Errorf("invalid /W element %d: %d", i, width)
+		}
+		entryWidth += width
+	}
+	if entryWidth == 0 {
+		return nil, fmt.Errorf("invalid /W array: all field widths are zero")
+	}
+	if len(index)%2 != 0 {
+		return nil, fmt.Errorf("invalid /Index array length: %d (expected pairs)", len(index))
+	}
+	totalEntries := 0
+	for i := 0; i < len(index); i += 2 {
+		if index[i] < 0 || index[i+1] < 0 {
+			return nil, fmt.Errorf("invalid /Index subsection: [%d %d]", index[i], index[i+1])
+		}
+		if index[i+1] > len(data)/entryWidth-totalEntries {
+			return nil, fmt.Errorf("xref stream too short: /Index announces more entries than the %d bytes of data hold", len(data))
+		}
+		totalEntries += index[i+1]
+	}
+
 	// Parse entries from binary data
 	table := NewXRefTable()
 	table.IsStream = true
